@@ -133,6 +133,8 @@ BadBuilds == <<
     Bad([Base EXCEPT !.lrs = <<"dict", "step_lr", [step_size |-> I(0)]>>]),
     Bad([Base EXCEPT !.lrs = <<"dict", "reduce_lr_on_plateau", [min_lr |-> R(-1, 10)]>>]),
     Bad([Base EXCEPT !.aug = <<"on", <<"dict", [contrast_p |-> R(3, 2)]>>, NoAug>>]),
+    Bad([Base EXCEPT !.aug = <<"on", <<"dict", [brightness_p |-> F("nan")]>>, NoAug>>]),
+    Bad([Base EXCEPT !.aug = <<"on", NoAug, <<"dict", [erase_p |-> F("nan")]>>>>]),
     Bad([Base EXCEPT !.aug = <<"on", <<"dict", [uniform_noise_min |-> R(-1, 10)]>>, NoAug>>]),
     Bad([Base EXCEPT !.aug = <<"on", NoAug, <<"dict", [affine_p |-> R(-1, 10)]>>>>]),
     Bad([Base EXCEPT !.aug = <<"on", NoAug, <<"dict", [mixup_p |-> R(2, 1)]>>>>]),
@@ -142,9 +144,9 @@ BadBuilds == <<
     Bad([Base EXCEPT !.bb = <<"dict", "convnext", EmptyFn>>, !.pw = S("resnet50")]) >>
 
 Ctor(cls, f, v) == [kind |-> "ctor", fam |-> "ctor", cls |-> cls, field |-> f, val |-> v]
-ProbProbes == <<R(-1, 10), R(-1, 1), R(3, 2), R(101, 100), Zero, One, R(1, 2), R(999, 1000), I(2), I(-1), I(1)>>
+ProbProbes == <<R(-1, 10), R(-1, 1), R(3, 2), R(101, 100), Zero, One, R(1, 2), R(999, 1000), I(2), I(-1), I(1), F("nan"), F("inf"), F("-inf")>>
 ProbFieldSeq == SetToSeq(ProbFields)
-ScaleProbes == <<R(-1, 2), R(-1, 1000), S("big"), N, L(<<R(1, 2), R(-1, 2)>>), L(<<S("x")>>), I(-2),
+ScaleProbes == <<F("nan"), R(-1, 2), R(-1, 1000), S("big"), N, L(<<R(1, 2), R(-1, 2)>>), L(<<S("x")>>), I(-2),
                  Zero, R(1, 2), One, R(2, 1), L(<<R(1, 2), R(1, 2)>>), I(1), T(<<R(1, 2), R(1, 2)>>)>>
 SizeProbes == <<S("tiny"), S("small"), S("base"), S("large"), S("huge"), S("Tiny"), S("")>>
 CtorCases ==
@@ -158,6 +160,7 @@ CtorCases ==
           Ctor("TrainerConfig", "trainer_devices", I(-1)), Ctor("TrainerConfig", "trainer_devices", S("auto")),
           Ctor("TrainerConfig", "trainer_devices", S("cuda")), Ctor("TrainerConfig", "trainer_devices", IL(<<0, 1>>)),
           Ctor("TrainerConfig", "trainer_devices", IL(<<0, -1>>)), Ctor("TrainerConfig", "trainer_devices", R(1, 2)),
+          Ctor("OptimizerConfig", "lr", F("nan")), Ctor("EarlyStoppingConfig", "min_delta", F("nan")), Ctor("IntensityConfig", "uniform_noise_min", F("nan")),
           Ctor("OptimizerConfig", "lr", R(1, 1000)), Ctor("OptimizerConfig", "lr", Zero), Ctor("OptimizerConfig", "lr", R(-1, 1000)),
           Ctor("StepLRConfig", "step_size", I(1)), Ctor("StepLRConfig", "step_size", I(0)), Ctor("StepLRConfig", "step_size", I(-5)),
           Ctor("EarlyStoppingConfig", "min_delta", Zero), Ctor("EarlyStoppingConfig", "min_delta", R(-1, 100)),
